@@ -540,6 +540,60 @@ def Ctx.opSetSubC (c : Ctx) (a : Actor) (tn : TName) (viaChn : Bool) (target : U
       else c.opSetSub a tn target mode
     | none => c.opSetSub a tn target mode
 
+/-- {set desc} on a channel-enabled topic -/
+def Ctx.opSetDescC (c : Ctx) (a : Actor) (tn : TName) (viaChn : Bool) (o : SetDescOpts) : Ctx :=
+  if !c.w.attached a.sid tn then
+    (if viaChn then c.setSubOfflineReader a tn "" "" o.priv else c.setSubOffline a tn "" "" o.priv)
+  else
+  match c.w.live? tn with
+  | none => c
+  | some t =>
+    if viaChn ∧ !t.isChan then c.emit a.sid (ctrl 404 tn) else
+    if !viaChn then c.opSetDesc a tn o else
+    -- under the `chn` spelling: what a non-owner may change is the own private data, stored with the reader's row
+    let hasAcs := o.auth ≠ "" ∨ o.anon ≠ ""
+    if t.owner ≠ a.uid ∧ (hasAcs ∨ o.pub ≠ .absent) then c.emit a.sid (ctrl 403 tn) else
+    if t.owner = a.uid then c.opSetDesc a tn o else
+    let (npriv, privCh) := mergeTok (t.pud a.uid).priv o.priv
+    if !privCh then c.emit a.sid (ctrl 304 tn) else
+    let (c, ok) := c.csubsUpdate tn a.uid (fun s => { s with priv := npriv })
+    if !ok then c.emit a.sid (ctrl 500 tn) else
+    let t := t.setPud a.uid { t.pud a.uid with priv := npriv }
+    (c.emit a.sid (ctrl 200 tn)).putLive t
+
+/-! ### {del msg}, {del sub} -/
+
+def Ctx.opDelMsgC (c : Ctx) (a : Actor) (tn : TName) (viaChn : Bool) (ranges : List (Int × Int)) (hard : Bool) : Ctx :=
+  if !c.w.attached a.sid tn then c.emit a.sid (ctrl 409 tn) else
+  match c.w.live? tn with
+  | none => c
+  | some t =>
+    if viaChn ∧ !t.isChan then c.emit a.sid (ctrl 404 tn) else
+    if viaChn then c.emit a.sid (ctrl 405 tn)             -- channel readers delete nothing
+    else c.opDelMsg a tn ranges hard
+
+def Ctx.opDelSubC (c : Ctx) (a : Actor) (tn : TName) (viaChn : Bool) (target : Uid) : Ctx :=
+  if !c.w.attached a.sid tn then c.emit a.sid (ctrl 409 tn) else
+  match c.w.live? tn with
+  | none => c
+  | some t =>
+    if viaChn ∧ !t.isChan then c.emit a.sid (ctrl 404 tn) else
+    if viaChn then c.emit a.sid (ctrl 403 tn) else
+    let me := t.pud a.uid
+    if !isAdmin (eff me) ∨ target = "" ∨ target = a.uid then c.emit a.sid (ctrl 403 tn) else
+    match t.pud? target with
+    | none => c.emit a.sid (ctrl 304 tn)
+    | some pud =>
+      if isOwner (eff pud) ∨ !isJoiner pud.want then c.emit a.sid (ctrl 403 tn) else
+      let (c, r) := c.subsDelete tn target
+      match r with
+      | none => c.emit a.sid (ctrl 500 tn)
+      | some found =>
+        let c := if found then c.emit a.sid (ctrl 200 tn) else c.emit a.sid (ctrl 304 tn)
+        let c := c.notifySubChange t target a.uid pud.want pud.given modeUnset modeUnset a.sid
+        let (c, t) := c.evictUserC t target true ""
+        c.putLive t
+
 /-! ### {del what=topic}, dropped connections -/
 
 def Ctx.terminateTopicC (c : Ctx) (t : Topic) : Ctx := c.terminateTopic t
